@@ -77,7 +77,10 @@ func (x *Exec) callStep(f *frame, in *ssa.Call) {
 		if b, isB := in.Type().Underlying().(*types.Basic); isB && b.Info()&types.IsBoolean != 0 {
 			val = ite(v.T, "1", "0")
 		} else if _, isPtr := in.Type().Underlying().(*types.Pointer); !isPtr {
-			return
+			// interface values (e.g. an error) are references as well: 0 = nil
+			if _, isIface := in.Type().Underlying().(*types.Interface); !isIface {
+				return
+			}
 		}
 	}
 	for _, cn := range []string{"Ghost_ret_" + sanitize(name), "Ghost_ret_" + sanitize(fmt.Sprintf("%s#%d", name, k))} {
